@@ -2,9 +2,28 @@
 use vstd::prelude::*;
 verus! {
 
-//@file TS = identity_core/src/common/timestamp.rs
-//@file ER = identity_core/src/error.rs
-//@include ../_prelude/std.vrs
+// ---- shared std prelude (assumed specifications of core/alloc items vstd does not cover) ----
+pub mod vxstd {
+use vstd::prelude::*;
+/// Rust's `?` converts the error with `From::from`; vstd leaves `spec_from` uninterpreted.
+pub broadcast proof fn axiom_question_mark_uses_from<F: From<E>, E>(e: E, r: F)
+  ensures #[trigger] vstd::std_specs::control_flow::spec_from::<F, E>(e, r) ==> call_ensures(<F as From<E>>::from, (e,), r)
+{ admit(); }
+/// `str` values are determined by their characters (Verus compares string patterns by value, exec `==` by view).
+pub broadcast proof fn axiom_str_ext(a: &str, b: &str)
+  ensures #![trigger a@, b@] (a@ == b@) ==> a == b
+{ admit(); }
+/// `String == str` (also through references) compares the characters.
+pub broadcast proof fn axiom_string_str_eq(a: &String, b: &str)
+  ensures #![trigger a@, b@] <String as vstd::std_specs::cmp::PartialEqSpec<str>>::obeys_eq_spec()
+    && <String as vstd::std_specs::cmp::PartialEqSpec<str>>::eq_spec(a, b) == (a@ == b@)
+{ admit(); }
+}
+/// ASSUMED std spec: Option::or_else
+pub assume_specification<T, F: FnOnce() -> Option<T>>[ Option::<T>::or_else ](o: Option<T>, f: F) -> (r: Option<T>)
+  requires o is None ==> f.requires(()),
+  ensures o is Some ==> r == o, o is None ==> f.ensures((), r);
+
 
 // ---------------------------------------------------------------------------------------------
 // Dependency boundary: the `time` crate (0.3.55), declared opaque with ASSUMED contracts taken
@@ -208,10 +227,21 @@ use time::OffsetDateTime;
 use time::UtcOffset;
 broadcast use {time::axiom_sub, time::axiom_utc_is_zero, time::lemma_year_window, vxstd::axiom_question_mark_uses_from};
 
-//@item ER :: type Result
-//@item ER :: enum Error
-//@item TS :: struct Timestamp | pubfields | attrs=#[derive(Clone, Copy)]
-//@item TS :: struct Duration | pubfields | attrs=#[derive(Clone, Copy)]
+pub type Result<T, E = Error> = ::core::result::Result<T, E>;
+pub enum Error {
+  EncodeJSON( serde_json::Error),
+  DecodeJSON( serde_json::Error),
+  DecodeBase(Base,  multibase::Error),
+  DecodeMultibase( multibase::Error),
+  InvalidUrl( url::ParseError),
+  InvalidTimestamp( time::error::Error),
+  OneOrSetEmpty,
+  OrderedSetDuplicate,
+}
+#[derive(Clone, Copy)]
+pub struct Timestamp(pub OffsetDateTime);
+#[derive(Clone, Copy)]
+pub struct Duration(pub time::Duration);
 
 impl core::fmt::Debug for Error { #[verifier::external_body] fn fmt(&self, f: &mut core::fmt::Formatter<'_>) -> core::fmt::Result { unimplemented!() } }
 
@@ -226,73 +256,134 @@ pub open spec fn dur_wf(d: Duration) -> bool { time::dur_ns(d.0) >= 0 && time::d
 pub open spec fn dur_s(d: Duration) -> int { time::dur_ns(d.0) / 1_000_000_000 }
 
 impl Timestamp {
-  //@fn TS :: impl Timestamp :: parse | ret=r | props=C13,C05
+  pub fn parse(input: &str) -> (r: Result<Self>)
     ensures
       r is Ok ==> ts_wf(r->Ok_0) && in_window(ts_unix(r->Ok_0)),
       // the instant denoted by the string, truncated to the second
       r is Ok ==> time::rfc3339_denotes(input@) is Some && ts_unix(r->Ok_0) == time::rfc3339_denotes(input@)->Some_0.0,
       time::rfc3339_denotes(input@) is None ==> r is Err,
-  //@end
+  {
+    let offset_date_time = OffsetDateTime::parse(input, &Rfc3339)
+      .map_err(|x_eta| -> (r_eta: _) requires call_requires(time::Error::from, (x_eta,)) ensures call_ensures(time::Error::from, (x_eta,), r_eta) { time::Error::from(x_eta) })
+      .map_err(|x_eta| -> (r_eta: Error) ensures r_eta == Error::InvalidTimestamp(x_eta) { Error::InvalidTimestamp(x_eta) })?
+      .checked_to_offset(UtcOffset::UTC)
+      .ok_or(Error::InvalidTimestamp(time::error::Error::Format(
+        time::error::Format::InvalidComponent("invalid year"),
+      )))?;
 
-  //@fn TS :: impl Timestamp :: now_utc | ret=r | props=C13,C05 | nth=1
+    // The local year is within 0000AD - 9999AD per Rfc3339, but normalizing to UTC can move the
+    // instant out of that range, see `from_unix`.
+    if !(0..10_000).contains(&offset_date_time.year()) {
+      return Err(Error::InvalidTimestamp(time::error::Error::Format(
+        time::error::Format::InvalidComponent("invalid year"),
+      )));
+    }
+    Ok(Timestamp(truncate_fractional_seconds(offset_date_time)))
+  }
+
+  pub fn now_utc() -> (r: Self)
     ensures ts_wf(r),
-  //@end
+  {
+    // expect is okay, we assume the current time is between 0AD and 9999AD
+    Self::from_unix(OffsetDateTime::now_utc().unix_timestamp()).expect("Timestamp failed to convert system datetime")
+  }
 
-  //@fn TS :: impl Timestamp :: to_rfc3339 | ret=r | props=C13,C05
+  pub fn to_rfc3339(&self) -> (r: String)
     requires ts_wf(*self),
     ensures r@ == time::rfc3339_text(self.0),
-  //@end
+  {
+    // expect is okay, constructors ensure RFC 3339 compatible timestamps.
+    // Making this fallible would break our interface such as From<Timestamp> for String.
+    self.0.format(&Rfc3339).expect("Timestamp incompatible with RFC 3339")
+  }
 
-  //@fn TS :: impl Timestamp :: to_unix | ret=r | props=C13,C05
+  pub fn to_unix(&self) -> (r: i64)
     ensures r == ts_unix(*self),
-  //@end
+  {
+    self.0.unix_timestamp()
+  }
 
-  //@fn TS :: impl Timestamp :: from_unix | ret=r | props=C13,C05
+  pub fn from_unix(seconds: i64) -> (r: Result<Self>)
     ensures
       r is Ok <==> in_window(seconds as int),
       r is Ok ==> ts_wf(r->Ok_0) && ts_unix(r->Ok_0) == seconds,
-  //@end
+  {
+    let offset_date_time = OffsetDateTime::from_unix_timestamp(seconds)
+      .map_err(|x_eta| -> (r_eta: _) requires call_requires(time::error::Error::from, (x_eta,)) ensures call_ensures(time::error::Error::from, (x_eta,), r_eta) { time::error::Error::from(x_eta) })
+      .map_err(|x_eta| -> (r_eta: Error) ensures r_eta == Error::InvalidTimestamp(x_eta) { Error::InvalidTimestamp(x_eta) })?;
 
-  //@fn TS :: impl Timestamp :: checked_add | ret=r | props=C13,C05
+    // Reject years outside of the range 0000AD - 9999AD per Rfc3339
+    // upfront to prevent conversion errors in to_rfc3339().
+    // https://datatracker.ietf.org/doc/html/rfc3339#section-1
+    if !(0..10_000).contains(&offset_date_time.year()) {
+      return Err(Error::InvalidTimestamp(time::error::Error::Format(
+        time::error::Format::InvalidComponent("invalid year"),
+      )));
+    }
+    Ok(Self(offset_date_time))
+  }
+
+  pub fn checked_add(self, duration: Duration) -> (r: Option<Self>)
     requires ts_wf(self), dur_wf(duration),
     ensures
       r is Some <==> in_window(ts_unix(self) + dur_s(duration)),
       r is Some ==> ts_wf(r->Some_0) && ts_unix(r->Some_0) == ts_unix(self) + dur_s(duration),
-    //@closure 1: |offset_date_time: OffsetDateTime| -> (o: Option<Timestamp>) ensures o is Some <==> in_window(time::unix(offset_date_time)), o is Some ==> ts_wf(o->Some_0) && ts_unix(o->Some_0) == time::unix(offset_date_time)
-  //@end
+  {
+    self
+      .0
+      .checked_add(duration.0)
+      .and_then(|offset_date_time: OffsetDateTime| -> (o: Option<Timestamp>) ensures o is Some <==> in_window(time::unix(offset_date_time)), o is Some ==> ts_wf(o->Some_0) && ts_unix(o->Some_0) == time::unix(offset_date_time) { Self::from_unix(offset_date_time.unix_timestamp()).ok() })
+  }
 
-  //@fn TS :: impl Timestamp :: checked_sub | ret=r | props=C13,C05
+  pub fn checked_sub(self, duration: Duration) -> (r: Option<Self>)
     requires ts_wf(self), dur_wf(duration),
     ensures
       r is Some <==> in_window(ts_unix(self) - dur_s(duration)),
       r is Some ==> ts_wf(r->Some_0) && ts_unix(r->Some_0) == ts_unix(self) - dur_s(duration),
-    //@closure 1: |offset_date_time: OffsetDateTime| -> (o: Option<Timestamp>) ensures o is Some <==> in_window(time::unix(offset_date_time)), o is Some ==> ts_wf(o->Some_0) && ts_unix(o->Some_0) == time::unix(offset_date_time)
-  //@end
+  {
+    self
+      .0
+      .checked_sub(duration.0)
+      .and_then(|offset_date_time: OffsetDateTime| -> (o: Option<Timestamp>) ensures o is Some <==> in_window(time::unix(offset_date_time)), o is Some ==> ts_wf(o->Some_0) && ts_unix(o->Some_0) == time::unix(offset_date_time) { Self::from_unix(offset_date_time.unix_timestamp()).ok() })
+  }
 }
 
-//@fn TS :: truncate_fractional_seconds | ret=r | props=C13,C05
+fn truncate_fractional_seconds(offset_date_time: OffsetDateTime) -> (r: OffsetDateTime)
   requires time::odt_wf(offset_date_time),
   ensures time::unix(r) == time::unix(offset_date_time), time::nanos(r) == 0,
     time::offset_s(r) == time::offset_s(offset_date_time), time::odt_wf(r),
-//@end
+{
+  offset_date_time - time::Duration::milliseconds(offset_date_time.millisecond() as i64)
+}
 
 impl Duration {
-  //@fn TS :: impl Duration :: seconds | ret=r | props=C13,C05
+  pub const fn seconds(seconds: u32) -> (r: Self)
     ensures dur_wf(r), dur_s(r) == seconds,
-  //@end
-  //@fn TS :: impl Duration :: minutes | ret=r | props=C13,C05
+  {
+    Self(time::Duration::seconds(seconds as i64))
+  }
+  pub const fn minutes(minutes: u32) -> (r: Self)
     ensures dur_wf(r), dur_s(r) == minutes * 60,
-  //@end
-  //@fn TS :: impl Duration :: days | ret=r | props=C13,C05
+  {
+    Self(time::Duration::minutes(minutes as i64))
+  }
+  pub const fn days(days: u32) -> (r: Self)
     ensures dur_wf(r), dur_s(r) == days * 86400,
-  //@end
-  //@fn TS :: impl Duration :: hours | ret=r | props=C13,C05
+  {
+    Self(time::Duration::days(days as i64))
+  }
+  pub const fn hours(hours: u32) -> (r: Self)
     ensures dur_wf(r), dur_s(r) == hours * 3600,
-  //@end
-  //@fn TS :: impl Duration :: weeks | ret=r | props=C13,C05
+  {
+    Self(time::Duration::hours(hours as i64))
+  }
+  pub const fn weeks(weeks: u32) -> (r: Self)
     ensures dur_wf(r), dur_s(r) == weeks * 604800,
-  //@end
+  {
+    Self(time::Duration::weeks(weeks as i64))
+  }
 }
 
 } // verus!
 fn main() {}
+
